@@ -156,13 +156,14 @@ pub fn peer_addr(p: usize) -> SocketAddr {
     addr_of(100 + p as u16)
 }
 
-/// Universe per family: 6 ranges (nested /0 ... /full, one overlapping) and 4 lookup addresses.
+/// Universe per family: 6 ranges (nested /0 ... /full, one overlapping), 4 lookup addresses and one address of ANOTHER family
+/// (no range of this family contains it, not even the /0 one).
 pub fn universe(family: &str) -> (Vec<Range>, Vec<Address>) {
     let mk = |bytes: &[u8], prefix: u8| Range { base: mk_addr(bytes), prefix_len: prefix };
     match family {
         "ipv4" => (
             vec![mk(&[0, 0, 0, 0], 0), mk(&[10, 0, 0, 0], 8), mk(&[10, 1, 0, 0], 16), mk(&[10, 1, 1, 0], 24), mk(&[10, 1, 1, 1], 32), mk(&[10, 0, 0, 0], 15)],
-            vec![mk_addr(&[10, 1, 1, 1]), mk_addr(&[10, 1, 2, 9]), mk_addr(&[10, 9, 9, 9]), mk_addr(&[192, 168, 0, 1])],
+            vec![mk_addr(&[10, 1, 1, 1]), mk_addr(&[10, 1, 2, 9]), mk_addr(&[10, 9, 9, 9]), mk_addr(&[192, 168, 0, 1]), mk_addr(&[0xff, 2, 0, 0, 0, 0, 0, 0, 0, 0, 0, 0, 0, 0, 0, 2])],
         ),
         "ipv6" => {
             let b = |x: &[u8]| {
@@ -184,6 +185,7 @@ pub fn universe(family: &str) -> (Vec<Range>, Vec<Address>) {
                     mk_addr(&b(&[0xfd, 0, 0, 1, 0, 0, 0, 5, 1])),
                     mk_addr(&b(&[0xfd, 7])),
                     mk_addr(&b(&[0x20, 1])),
+                    mk_addr(&[8, 8, 8, 8]),
                 ],
             )
         }
@@ -197,7 +199,7 @@ pub fn universe(family: &str) -> (Vec<Range>, Vec<Address>) {
                 mk(&[0, 5, 2, 0, 0, 0, 0, 7], 64),
                 mk(&[0, 4, 0, 0, 0, 0, 0, 0], 15),
             ],
-            vec![mk_addr(&[0, 5, 2, 0, 0, 0, 0, 7]), mk_addr(&[0, 5, 2, 0, 0, 9, 9, 9]), mk_addr(&[0, 5, 7, 7, 7, 7, 7, 7]), mk_addr(&[0, 9, 2, 0, 0, 0, 0, 7])],
+            vec![mk_addr(&[0, 5, 2, 0, 0, 0, 0, 7]), mk_addr(&[0, 5, 2, 0, 0, 9, 9, 9]), mk_addr(&[0, 5, 7, 7, 7, 7, 7, 7]), mk_addr(&[0, 9, 2, 0, 0, 0, 0, 7]), mk_addr(&[2, 0, 0, 0, 0, 7])],
         ),
     }
 }
@@ -231,6 +233,9 @@ pub struct Sys {
 
 pub struct M {
     pub family: &'static str,
+    /// small alphabet (one address, a wide claim of peer 0, a narrower one of peer 1, one-second steps, learning) for deep
+    /// schedules: refreshes, expiry under traffic, a better claim appearing while a decision is cached
+    pub narrow: bool,
 }
 
 impl M {
@@ -310,9 +315,12 @@ impl Model for M {
         }
     }
 
-    fn enabled(&self, _s: &Sys, _hist: &[Ev]) -> Vec<Ev> {
+    fn enabled(&self, s: &Sys, _hist: &[Ev]) -> Vec<Ev> {
+        if self.narrow {
+            return vec![Ev::Lookup(0), Ev::Advance(1), Ev::Announce(0, 1), Ev::Announce(1, 2), Ev::Announce(1, 0), Ev::Learn(0, 2), Ev::Disconnect(2)];
+        }
         let mut v = vec![];
-        for a in 0..4 {
+        for a in 0..s.addrs.len() {
             v.push(Ev::Lookup(a));
         }
         for p in 0..3 {
@@ -410,7 +418,9 @@ impl Model for M {
                 // learned from a frame of peer p: good for the switch timeout and for as long as p stays (a disconnect or a
                 // shrinking re-announcement of p deletes it from the list like any other decision of p)
                 s.table.cache(s.addrs[*a], peer_addr(*p));
-                s.decisions.retain(|d| !(d.addr == *a && d.peer == *p && d.claim == LEARNED));
+                // the table keeps ONE decision per address: learning replaces whatever was cached for it before, so a later lookup
+                // that finds nothing cached (the learned entry left with its peer) computes a NEW decision with its own lifetime
+                s.decisions.retain(|d| d.addr != *a);
                 s.decisions.push(Decision { addr: *a, peer: *p, claim: LEARNED, at: s.now });
             }
         }
@@ -441,7 +451,7 @@ impl Model for M {
     fn probe(&self, mut s: Sys, _hist: &[Ev]) -> Result<u64, Fail> {
         // every address is looked up in every state (destructive: fills the cache)
         let mut class = 0u64;
-        for a in 0..4 {
+        for a in 0..s.addrs.len() {
             self.apply(&mut s, &Ev::Lookup(a))?;
             class = class * 5 + s.decisions.iter().filter(|d| d.addr == a).map(|d| d.peer as u64 + 1).last().unwrap_or(0);
         }
@@ -553,7 +563,7 @@ pub fn run(ctx: &Ctx) {
     let _ = st;
     // table
     for (i, (family, depth)) in variants(ctx.tier).into_iter().enumerate() {
-        let m = M { family };
+        let m = M { family, narrow: false };
         let fam = format!("table_{}", family);
         let res = explore::explore(
             ctx,
@@ -565,6 +575,12 @@ pub fn run(ctx: &Ctx) {
             explore::audit_dedup(ctx, &fam, &m, &res, ctx.tier.pick(2, 3), Duration::from_secs(ctx.tier.pick(300, 300)));
         }
     }
+    explore::explore(
+        ctx,
+        "table_ipv4_narrow",
+        &M { family: "ipv4", narrow: true },
+        ExploreOpts { max_depth: ctx.tier.pick(11, 16), wall_cap: Duration::from_secs(ctx.tier.pick(400, 1500)), state_cap: ctx.tier.pick(600_000, 16_000_000), dedup: true },
+    );
     let nodes: Vec<NodeCase> = ["router", "switch", "hub"].iter().map(|m| NodeCase { mode: m.to_string() }).collect();
     sweep_list(ctx, "node_unknown_destination", &nodes, SweepOpts { chunk: 1, ..Default::default() }, run_node);
     ctx.assume("time constants are scaled down (switch timeout 3 s, peer timeout 7 s): the table only compares expiries with the clock");
@@ -580,12 +596,12 @@ pub fn replay(family: &str, case: &Value) -> Option<CaseResult> {
         f if f.starts_with("table_") => {
             let fam = f.trim_end_matches("-audit");
             let family: &'static str = match fam {
-                "table_ipv4" => "ipv4",
+                "table_ipv4" | "table_ipv4_narrow" => "ipv4",
                 "table_ipv6" => "ipv6",
                 _ => "mac",
             };
             let hist: Vec<Ev> = serde_json::from_value(case["history"].clone()).ok()?;
-            Some(explore::replay_history(&M { family }, &hist))
+            Some(explore::replay_history(&M { family, narrow: f.contains("narrow") }, &hist))
         }
         _ => None,
     }
